@@ -3,7 +3,8 @@
 // Protocol line:   seq <grace_ms> <napps> <cfgs> <inflight> <trace>
 //
 //	cfgs      c0;c1;…  each  "="  (previous bytes again, unforced)  |  ["!"] srv+srv…  |  "-" (no server)
-//	          srv = a,a,…  with a ∈ t0 t1 t2 (tcp) u0 u1 (unix);  "!" = probe app a fails in Start
+//	          srv = a,a,…  with a ∈ t0 t1 t2 (tcp) u0 u1 (unix);  "!" = rejected after every app started
+//	          (its admin.config.load module cannot be provisioned)
 //	inflight  "-" | load:addr:rel;…   a request parked in a handler of the config running before
 //	          <load>, released at p (first Provision of the new config) s ("started") t ("stopping")
 //	          r (Load returned) d (old config drained)
@@ -101,9 +102,6 @@ func parseScenario(f []string) (sc scenario, ok bool) {
 		if strings.HasPrefix(cs, "!") {
 			c.fail = true
 			cs = cs[1:]
-			if sc.napps == 0 {
-				return sc, false
-			}
 		}
 		seen := map[int]bool{}
 		if cs != "-" {
@@ -148,7 +146,7 @@ func parseScenario(f []string) (sc scenario, ok bool) {
 			case sc.cfgs[k].same:
 				allowed = ""
 			case sc.cfgs[k].fail:
-				allowed = "prd"
+				allowed = "psrd"
 			}
 			if !strings.Contains(allowed, p[2]) {
 				return sc, false
@@ -217,15 +215,17 @@ func canonAns(ans string) string {
 func (r *runner) summary() string {
 	n := len(r.sc.cfgs)
 	run := r.sc.running()
+	evs := r.events[:r.cut]
 	var blocks []string
-	for k := 0; k <= n; k++ {
-		res := "?"
-		if k < len(r.results) {
-			res = r.results[k]
+	for k := 0; k <= n && k < len(r.results); k++ {
+		res := r.results[k]
+		if res == "stale" || r.poisoned && k == len(r.results)-1 {
+			blocks = append(blocks, res+"::::")
+			break
 		}
 		var d *event
 		var binds, closes []string
-		for _, ev := range r.events {
+		for _, ev := range evs {
 			if ev.load != k {
 				continue
 			}
@@ -234,7 +234,7 @@ func (r *runner) summary() string {
 				d = ev
 			case ev.kind == 'B' && ev.gen == k:
 				binds = append(binds, fmt.Sprintf("%d%s=%s", ev.addr, ev.mod, ev.snap.of(ev.addr)))
-			case ev.kind == 'X' && ev.gen == run[k]:
+			case ev.kind == 'X' && (ev.gen == run[k] && res == "ok" || ev.gen == k && res == "err"):
 				closes = append(closes, fmt.Sprintf("%d%s=%s>%s", ev.addr, ev.mod, ev.snap.of(ev.addr), ev.snap2.of(ev.addr)))
 			}
 		}
@@ -246,10 +246,6 @@ func (r *runner) summary() string {
 		for i := range closes {
 			closes[i] = closes[i][1:]
 		}
-		bs, cs := strings.Join(binds, ","), strings.Join(closes, ",")
-		if res != "ok" {
-			bs, cs = "", ""
-		}
 		dsnap, dans := "?", "?"
 		if d != nil {
 			dsnap = d.snap.String()
@@ -258,11 +254,14 @@ func (r *runner) summary() string {
 				dans += canonAns(d.ans[a])
 			}
 		}
-		blocks = append(blocks, fmt.Sprintf("%s:%s:%s:%s:%s", res, dsnap, dans, bs, cs))
+		blocks = append(blocks, fmt.Sprintf("%s:%s:%s:%s:%s", res, dsnap, dans, strings.Join(binds, ","), strings.Join(closes, ",")))
 	}
 	toks := ""
 	for i := range r.sc.toks {
-		toks += canonAns(r.tokens[fmt.Sprintf("k%d", i)].result)
+		t := r.tokens[fmt.Sprintf("k%d", i)]
+		if t.started {
+			toks += canonAns(t.result)
+		}
 	}
 	if toks == "" {
 		toks = "-"
@@ -271,8 +270,8 @@ func (r *runner) summary() string {
 }
 
 func (r *runner) traceString() string {
-	parts := make([]string, len(r.events))
-	for i, ev := range r.events {
+	parts := make([]string, r.cut)
+	for i, ev := range r.events[:r.cut] {
 		parts[i] = ev.String()
 	}
 	return strings.Join(parts, ";")
@@ -284,66 +283,85 @@ func (r *runner) oracle() {
 	n := len(r.sc.cfgs)
 	run := r.sc.running()
 	has := func(k, a int) bool { return k >= 0 && k < n && r.sc.cfgs[k].has(a) }
-	for _, ev := range r.events {
+	candStarted := map[int]bool{}
+	for _, ev := range r.events[:r.cut] {
+		if ev.kind == 'Z' {
+			break // from here on the tree is in the known broken state; the scenario was cut
+		}
+		if ev.kind == 'E' && ev.mod == "started" {
+			candStarted[ev.gen] = true
+		}
 		if !ev.probed() {
 			continue
 		}
 		k := ev.load
 		old := run[k]
-		replaced := k < n && !r.sc.cfgs[k].same && !r.sc.cfgs[k].fail // a new config takes over in this load
-		final := k == n
+		cand := -1 // the config being loaded, if any
+		if k < n && !r.sc.cfgs[k].same {
+			cand = k
+		}
+		takeover := k == n || cand >= 0 && !r.sc.cfgs[k].fail // old is stopped in this load
 		where := fmt.Sprintf("load %d, step %s", k, strings.SplitN(ev.String(), ":", 2)[0])
 		for a := 0; a < nAddr; a++ {
 			x := ev.ans[a]
-			inOld := has(old, a)
-			inNew := replaced && has(k, a)
 			name := addrNames[a]
 			served := isGenChar(x)
+			inOld, inCand := has(old, a), has(cand, a)
+			mustServe := inOld && (!takeover || inCand) // retained, or the old config simply stays
+			allowed := ""
+			if inOld {
+				allowed += genChar(old)
+			}
+			if inCand {
+				allowed += genChar(cand)
+			}
 			switch {
-			case inOld && (inNew || !replaced && !final):
-				// retained (or the old config simply stays): never stops being served, by old or new only
+			case served && !strings.Contains(allowed, x):
+				cls := "unconfigured-address-served"
 				switch {
-				case !served:
-					r.fail("retained-address-not-served", fmt.Sprintf("%s: connection to %s (in config %d and its successor): %q", where, name, old, x))
-				case x != genChar(old) && !(inNew && x == genChar(k)):
-					r.fail("retained-address-answered-by-other-config", fmt.Sprintf("%s: %s answered by %s, expected config %d or %d", where, name, x, old, k))
-				case ev.kind == 'D' && inNew && x != genChar(k):
-					r.fail("old-config-answers-after-drain", fmt.Sprintf("%s: %s answered by %s after config %d drained", where, name, x, old))
-				case len(ev.hold[a]) == 1 && x != genChar(ev.hold[a][0]) && ev.hold[a][0] == k:
-					r.fail("old-config-answers-after-its-listener-closed", fmt.Sprintf("%s: %s answered by %s although only config %d has a listener", where, name, x, k))
-				case len(ev.hold[a]) == 1 && ev.hold[a][0] == old && x != genChar(old) && inNew:
-					r.fail("new-config-answers-before-it-bound", fmt.Sprintf("%s: %s answered by %s before config %d bound it", where, name, x, k))
+				case mustServe:
+					cls = "retained-address-answered-by-other-config"
+				case inOld:
+					cls = "dropped-address-answered-by-other-config"
+				case inCand:
+					cls = "added-address-answered-by-other-config"
 				}
-			case inOld:
-				// dropped by the successor (or by the final stop): old may answer until it is stopped; closed after drain
-				if served && x != genChar(old) {
-					r.fail("dropped-address-answered-by-other-config", fmt.Sprintf("%s: %s answered by %s", where, name, x))
+				r.fail(cls, fmt.Sprintf("%s: %s answered by config %s; only %q may", where, name, x, allowed))
+			case mustServe && !served:
+				r.fail("retained-address-not-served", fmt.Sprintf("%s: connection to %s, which config %d holds and its successor keeps: %q", where, name, old, x))
+			case takeover && !inOld && inCand && candStarted[cand] && !served:
+				r.fail("added-address-not-served", fmt.Sprintf("%s: %s is in config %d, which has started: %q", where, name, cand, x))
+			}
+			if mustServe && served && len(ev.hold[a]) == 1 && x != genChar(ev.hold[a][0]) {
+				if ev.hold[a][0] == old {
+					r.fail("new-config-answers-before-it-bound", fmt.Sprintf("%s: %s answered by %s while only config %d has a listener", where, name, x, old))
+				} else {
+					r.fail("old-config-answers-after-its-listener-closed", fmt.Sprintf("%s: %s answered by %s while only config %d has a listener", where, name, x, ev.hold[a][0]))
 				}
-				if ev.kind == 'D' {
-					switch {
-					case served:
-						r.fail("dropped-address-still-served", fmt.Sprintf("%s: %s still answered by %s after drain", where, name, x))
-					case isUnix(a) && (x == ansTimeout || x == "-"):
-						r.fail("dropped-unix-socket-still-accepting", fmt.Sprintf("%s: %s was dropped and every listener on it is closed, but a connection is still accepted (and never answered)", where, name))
-					case x != ansRefused && x != ansNoEnt:
-						r.fail("dropped-address-not-closed", fmt.Sprintf("%s: %s after drain: %q", where, name, x))
-					}
+			}
+			if ev.kind == 'D' {
+				expect := -1
+				switch {
+				case takeover && inCand:
+					expect = cand
+				case !takeover && inOld:
+					expect = old
 				}
-			case inNew:
-				// added: nobody before the new config binds it, the new config afterwards
-				if served && x != genChar(k) {
-					r.fail("added-address-answered-by-other-config", fmt.Sprintf("%s: %s answered by %s", where, name, x))
-				}
-				if (ev.kind == 'R' || ev.kind == 'D' || ev.kind == 'E' || ev.kind == 'T' || ev.kind == 'C') && !served {
-					r.fail("added-address-not-served", fmt.Sprintf("%s: %s: %q", where, name, x))
-				}
-			default:
-				if served && !(k < n && r.sc.cfgs[k].fail && has(k, a) && x == genChar(k)) {
-					r.fail("unconfigured-address-served", fmt.Sprintf("%s: %s answered by %s", where, name, x))
+				switch {
+				case expect >= 0 && served && x != genChar(expect):
+					r.fail("other-config-answers-after-drain", fmt.Sprintf("%s: %s answered by %s, only config %d is left", where, name, x, expect))
+				case expect >= 0 && !served:
+					r.fail("address-not-served-after-drain", fmt.Sprintf("%s: %s belongs to config %d: %q", where, name, expect, x))
+				case expect < 0 && served:
+					r.fail("dropped-address-still-served", fmt.Sprintf("%s: %s still answered by %s after drain", where, name, x))
+				case expect < 0 && isUnix(a) && (x == ansTimeout || x == "-"):
+					r.fail("dropped-unix-socket-still-accepting", fmt.Sprintf("%s: no config listens on %s any more and every listener on it is closed, but a connection is still accepted (and never answered)", where, name))
+				case expect < 0 && x != ansRefused && x != ansNoEnt:
+					r.fail("dropped-address-not-closed", fmt.Sprintf("%s: %s after drain: %q", where, name, x))
 				}
 			}
 			// bookkeeping form of "never unbound" and of "unlinked only at zero"
-			if inOld && (inNew || !replaced && !final) {
+			if mustServe {
 				if !isUnix(a) && ev.snap.pool[a] < 1 {
 					r.fail("retained-address-usage-count-zero", fmt.Sprintf("%s: listenerPool count of %s is %d", where, name, ev.snap.pool[a]))
 				}
@@ -528,7 +546,7 @@ func genScenario(rng *core.Rand, maxCfgs int) scenario {
 		default:
 			c.servers = splitServers(rng, randSubset(rng, 45, 45))
 		}
-		if !c.same && sc.napps >= 1 && rng.Chance(1, 8) {
+		if !c.same && rng.Chance(1, 8) {
 			c.fail = true
 		}
 		sc.cfgs = append(sc.cfgs, c)
@@ -552,7 +570,7 @@ func genScenario(rng *core.Rand, maxCfgs int) scenario {
 		case sc.cfgs[k].same:
 			continue
 		case sc.cfgs[k].fail:
-			allowed = "prd"
+			allowed = "psrd"
 		}
 		for t := 1 + rng.Intn(2); t > 0; t-- {
 			sc.toks = append(sc.toks, tokSpec{load: k, addr: as[rng.Intn(len(as))], rel: allowed[rng.Intn(len(allowed))]})
@@ -592,7 +610,9 @@ var fixedScenarios = []string{
 	"seq 0 0 u0;u0 -",
 	"seq 0 0 u0;- -",
 	"seq 0 2 t0,u0;t0,u0;t0+u0,t1;t1 2:t0:s;3:u0:r",
-	"seq 0 1 t0,u0;!t0,u0,t1;t0,u0 1:t0:p;2:u0:t",
+	"seq 0 1 t0,u0;!t0,u0,t1;t0,u1 1:t0:p;2:u0:t",
+	"seq 0 0 u0;!u0;u0 -",
+	"seq 0 2 t0;!t0,t1,u1;t0,u1 1:t0:s",
 	"seq 300 2 t0,t1,u0,u1;t0,u1;=;t0,t1,u0,u1;- 1:t1:r;1:u1:d;5:t0:t",
 	"seq 0 0 u0;-;u0;u0;u1 -",
 	"seq 2000 1 t0+u0;u0+t0;t0,u0 1:u0:s;2:t0:t;3:u0:d",
@@ -653,7 +673,7 @@ func (p *prop) runScenario(sc scenario) (core.Outcome, string) {
 	}
 	verdict := "accept"
 	for _, f := range r.fails {
-		if f.Class != "dropped-unix-socket-still-accepting" {
+		if f.Class != "dropped-unix-socket-still-accepting" && f.Class != "unix-reuse-of-closed-listener" {
 			verdict = "oracle-fail"
 		}
 	}
